@@ -264,6 +264,10 @@ impl TerminalRenderer {
     }
 
     /// Clear terminal
+    ///
+    /// Forgets what is shown on the terminal, so the next frame repaints
+    /// everything. Content already drawn on the surface for the next frame
+    /// is kept.
     pub fn clear<T: Terminal + ?Sized>(&mut self, term: &mut T) -> Result<(), Error> {
         // erase all images
         for (pos, cell) in self.back.iter().with_position() {
@@ -273,7 +277,6 @@ impl TerminalRenderer {
         }
 
         self.marks.fill(CellMark::Damaged);
-        self.front.fill(Cell::default());
         self.back.fill(Cell::default());
 
         Ok(())
